@@ -224,12 +224,21 @@ fn check_std_direct(
                     }
                     continue;
                 }
-                let cont = content(bytes, o.crlf);
-                let first = if o.invert { None } else { matcher.find(cont).ok().flatten() };
+                // "the first match in the line" is asked of the matcher in context: the buffer up to the end of the
+                // line's content (terminator stripped), searched from the start of the line — look-behind sees what
+                // precedes the line, exactly as for the searcher (an isolated copy of the line can answer
+                // differently, e.g. -w next to invalid UTF-8)
+                let cont_len = content(bytes, o.crlf).len();
+                let hay = &trace.bufs[*buf][..*rs + cont_len];
+                let first = if o.invert {
+                    None
+                } else {
+                    matcher.find_at(hay, *rs).ok().flatten().map(|m| grep_matcher::Match::new(m.start() - *rs, m.end() - *rs))
+                };
                 let mut ms = vec![];
                 if o.vimgrep && !o.invert {
-                    let _ = matcher.find_iter(cont, |m| {
-                        ms.push(m.start());
+                    let _ = matcher.find_iter_at(hay, *rs, |m| {
+                        ms.push(m.start() - *rs);
                         true
                     });
                 }
@@ -272,8 +281,13 @@ fn check_std_direct(
                 let first = if o.invert && granular(o) { matcher.find(cont).ok().flatten() } else { None };
                 if o.vimgrep && o.invert && first.is_some() {
                     let mut ms = vec![];
+                    let unterminated = bytes.last() != Some(&b'\n');
                     let _ = matcher.find_iter(cont, |m| {
-                        ms.push(m.start());
+                        // a match starting at the end of the reported bytes belongs to the line only when the
+                        // line has no terminator
+                        if m.start() < bytes.len() || unterminated {
+                            ms.push(m.start());
+                        }
                         true
                     });
                     for s in ms {
